@@ -306,6 +306,38 @@ theorem step_inv {s s' : St} {t : Nat} {a : Act} (hinv : Inv s) (h : step true s
       · exact hinv.events m h1
       · simp at h1; subst h1; exact hinv.fileOf t m hp
 
+  | abort =>
+    simp only [step] at h
+    have key : ∀ n, (s.pc t = .released n ∨ s.pc t = .written n) → s' = setPc s t .idle → Inv s' := by
+      intro n hp hs'
+      subst hs'
+      have hnw : inWindow (s.pc t) = false := by rcases hp with hp | hp <;> rw [hp] <;> rfl
+      have hbound : bound (setPc s t .idle) = bound s := by
+        have : window (setPc s t .idle) = window s := window_setPc s t .idle rfl hnw
+        simp only [bound, this]; rfl
+      refine ⟨?_, ?_, ?_, ?_, ?_, hinv.events⟩
+      · intro x hx
+        by_cases e : x = t
+        · subst e; simp [setPc, inCS] at hx
+        · exact hinv.cs x (by simpa [setPc, e] using hx)
+      · show s.names.map (·.2) = _
+        rw [hinv.names, hbound]
+      · intro x m hx
+        by_cases e : x = t
+        · subst e; simp [setPc] at hx
+        · exact hinv.named x m (by simpa [setPc, e] using hx)
+      · intro x m r' hx
+        by_cases e : x = t
+        · subst e; simp [setPc] at hx
+        · exact hinv.incRead x m r' (by simpa [setPc, e] using hx)
+      · intro x m hx
+        by_cases e : x = t
+        · subst e; simp [setPc] at hx
+        · exact hinv.fileOf x m (by simpa [setPc, e] using hx)
+    cases hp : s.pc t <;> rw [hp] at h <;> try cases h
+    · rename_i n; exact key n (Or.inl hp) rfl
+    · rename_i n; exact key n (Or.inr hp) rfl
+
 theorem run_inv : ∀ (tr : List (Nat × Act)) (s s' : St), Inv s → run true s tr = some s' → Inv s'
   | [], s, s', hinv, h => by simp only [run] at h; injection h with h; subst h; exact hinv
   | (t, a) :: rest, s, s', hinv, h => by
@@ -395,6 +427,12 @@ theorem step_fileInv {b : Bool} {s s' : St} {t : Nat} {a : Act} (hinv : FileInv 
       rcases List.mem_append.mp hm' with h1 | h1
       · exact hinv.events m h1
       · simp at h1; subst h1; exact hinv.fileOf t m hp
+
+  | abort =>
+    simp only [step] at h
+    cases hp : s.pc t <;> rw [hp] at h <;> try cases h
+    · exact key .idle _ (by intro n hn; cases hn) rfl rfl rfl
+    · exact key .idle _ (by intro n hn; cases hn) rfl rfl rfl
 
 theorem run_fileInv {b : Bool} : ∀ (tr : List (Nat × Act)) (s s' : St), FileInv s → run b s tr = some s' → FileInv s'
   | [], s, s', hinv, h => by simp only [run] at h; injection h with h; subst h; exact hinv
